@@ -396,7 +396,9 @@ func controlC11(fx *Program, r *Report) {
 			continue
 		}
 		a := newPts(fx)
-		a.tracked = func(o *aobj) bool { return o.kind == kShared || o.kind == kGlobal || o.kind == kStr || o.kind == kParam }
+		a.tracked = func(o *aobj) bool {
+			return o.kind == kShared || o.kind == kGlobal || o.kind == kStr || o.kind == kParam
+		}
 		sh := a.seedObj(kShared, "SHARED")
 		a.reachFn(f)
 		a.add(f.Params[0], sh)
